@@ -21,6 +21,33 @@ from ..vloop import virtual_world
 GA, GA_PLAIN = "0/4/0", "0/4/1"
 
 
+_KEYRINGS: dict = {}
+
+
+def keyring_for(key, senders):
+    """a loaded Keyring with the group key of GA and one interface whose group entry lists the senders (none: no interface group entry)"""
+    import tempfile
+    from pathlib import Path
+
+    from xknx.secure.keyring import sync_load_keyring
+    from xknx.telegram import GroupAddress, IndividualAddress
+
+    from . import c31
+
+    k = (key, senders)
+    if k not in _KEYRINGS:
+        rnd = random.Random(1)
+        c = {"project": "verif", "created": "2024-01-01T00:00:00", "password": "pw", "groups": [[GroupAddress(GA).raw, key.hex()]], "backbone": None,
+             "ifaces": [{"type": "Tunneling", "ia": IndividualAddress("1.1.1").raw, "host": IndividualAddress("1.1.0").raw, "user_id": 2, "password": "tunnel", "auth": "auth",
+                         "groups": [{"ga": GroupAddress(GA).raw, "senders": [IndividualAddress(s).raw for s in senders]}] if senders else []}], "devices": []}
+        tree = c31.build_tree(c, rnd)
+        with tempfile.TemporaryDirectory() as d:
+            p = Path(d) / "k.knxkeys"
+            p.write_text(c31.to_xml(tree, c31.signature(tree, "pw")), encoding="utf-8")
+            _KEYRINGS[k] = sync_load_keyring(p, "pw")
+    return _KEYRINGS[k]
+
+
 def make_node(key, senders, loop):
     """a started-enough XKNX with Data Secure tables, a recording interface, a Switch on both addresses"""
     from xknx import XKNX
@@ -34,9 +61,10 @@ def make_node(key, senders, loop):
     with patch("xknx.xknx.knx_interface_factory", return_value=m):
         xknx = XKNX()
     xknx.current_address = IndividualAddress("1.1.1")
-    xknx.cemi_handler.data_secure = DataSecure(group_key_table={GroupAddress(GA): key},
-                                               individual_address_table={IndividualAddress(s): 0 for s in senders},
-                                               last_sequence_number_sending=5)
+    # the real initialisation path: a keyring (written by the independent writer of C31) -> CEMIHandler.data_secure_init
+    xknx.cemi_handler.data_secure_init(keyring_for(key, tuple(senders)))
+    if xknx.cemi_handler.data_secure is not None:
+        xknx.cemi_handler.data_secure._sequence_number_sending = 5
     wire = []
 
     async def send_cemi(cemi):
@@ -87,11 +115,24 @@ def receive(loop, node, raw):
     while not xknx.telegrams.empty():
         xknx.telegrams.get_nowait()
     out = "discarded"
+    from xknx.management.management import Management  # noqa: PLC0415
+
+    mgmt = []
+    orig = Management.process
+
+    def counted(self, telegram):
+        mgmt.append(telegram)
+        return orig(self, telegram)
+
     try:
-        xknx.cemi_handler.handle_raw_cemi(raw)
+        with patch.object(Management, "process", counted):
+            xknx.cemi_handler.handle_raw_cemi(raw)
     except Exception as ex:  # noqa: BLE001 - the receive path must not raise
         return {"out": "raised", "exc": type(ex).__name__, "tg": None}
     tg = None
+    if mgmt:                                    # handed to the management layer (point-to-point, broadcast and tag-group telegrams)
+        out = "delivered"
+        tg = mgmt[0]
     if not xknx.telegrams.empty():
         tg = xknx.telegrams.get_nowait()
         out = "delivered"
@@ -183,6 +224,16 @@ def cases16(ck, rnd, loop):
                 m[bit // 8] ^= 1 << (7 - bit % 8)
                 try_frame(bytes(m), "bit", bit)
             try_frame(raw, "wrongkey", key2=bytes(16))
+            # the interface is restarted with a keyring holding another key for the address: the old key is not accepted any more, the new one is
+            key_new = bytes(b ^ 0x5A for b in key)
+            receiver = make_node(key, ["1.1.7"], loop)
+            receiver[0].cemi_handler.data_secure_init(keyring_for(key_new, ("1.1.7",)))
+            r = receive(loop, receiver, raw)
+            out.append(({"p": "C16", "mut": "wrongkey", "n": ln, "bit": -1, "out": r["out"], "same": 0}, raw.hex() + " (old key after re-initialisation)"))
+            raw_new = secure_frame(key_new, "1.1.7", GA, "group", seq, pl.to_knx(), alg_enc)
+            r = receive(loop, receiver, raw_new)
+            out.append(({"p": "C16", "mut": "genuine", "n": ln, "bit": -1, "out": r["out"], "same": 1 if r["tg"] is not None and r["tg"].payload == pl and r["tg"].data_secure else 0},
+                        raw_new.hex() + " (new key after re-initialisation)"))
             for cut in range(1, 6):
                 t = bytearray(raw[:-cut])
                 t[8] = (t[8] - cut) % 256                   # keep the NPDU length consistent with the shorter frame
@@ -224,8 +275,11 @@ def cases18(ck, rnd, loop):
     from xknx.exceptions import DataSecureError
 
     node = make_node(key, [], loop)
-    node[0].cemi_handler.data_secure._sequence_number_sending = 2**48 - 2
-    for i in range(5):
+    if node[0].cemi_handler.data_secure is None:
+        out.append(({"p": "C18", "kind": "out", "keyed": 1, "onwire_secure": 0}, "Data Secure is not active although the keyring holds a key for the address"))
+    else:
+        node[0].cemi_handler.data_secure._sequence_number_sending = 2**48 - 2
+    for i in range(5 if node[0].cemi_handler.data_secure is not None else 0):
         before = len(node[1])
         try:
             _sync(node[0].cemi_handler.send_telegram(Telegram(GroupAddress(GA), payload=apci.GroupValueWrite(DPTBinary(i % 2)))), loop)
